@@ -50,7 +50,8 @@ def jobs(pid, tier):
             J.append(Job('quant', dict(N=5, L=3, maxq=1, entries=['quantify_names']),
                          need_outcomes=['returned:quantify_names']))
         else:
-            J.append(Job('quant', dict(N=5, L=3, entries=['quantify_names', 'apply']), need_outcomes=['returned:quantify_names']))
+            J.append(Job('quant', dict(N=5, L=3, maxq=1, entries=['quantify_names']), need_outcomes=['returned:quantify_names']))
+            J.append(Job('quant', dict(N=4, L=3, entries=['quantify_names', 'apply']), need_outcomes=['returned:quantify_names']))
     if pid == 'C04':
         J.append(Job('let', dict(N=4, L=2, via=['bdd', 'autoref']), need_outcomes=['returned:' + e for e in
                      ('cofactor', 'compose1', 'compose2', 'rename', 'empty')]))
@@ -94,7 +95,6 @@ def jobs(pid, tier):
                      ('sift', 'to_order', 'to_pairs', 'autoref_sift', 'autoref_order', 'shift')]))
         J.append(Job('sched', dict(L=4, kinds=['to_pairs', 'to_order']), need_outcomes=['done:to_pairs']))
         if not q:
-            J.append(Job('k7_swap', dict(N=5, L=2, x=0, K=2), need_outcomes=['swapped']))
             J.append(Job('k7_swap', dict(N=4, L=3, x=1, K=2, by='reversed'), need_outcomes=['swapped']))
             J.append(Job('sched', dict(L=4, kinds=['sift', 'to_order', 'to_pairs']), need_outcomes=['done:sift']))
     if pid == 'C08':
@@ -121,9 +121,9 @@ def jobs(pid, tier):
                      need_outcomes=['done:autoref_len']))
     if pid in ('C07', 'C02', 'C10'):
         # ... and with the two levels exchanged in between (answers are by variable name)
-        sw = {'C07': ['var', 'let_const', 'exist', 'support'] + ([] if q else ['apply_and']), 'C02': ['var'],
+        sw = {'C07': ['var', 'let_const', 'exist', 'support'], 'C02': ['var'],
               'C10': ['count', 'support']}[pid]
-        J.append(Job('memo_seq', dict(N=2 if q else 3, L=2, K=3, ops=sw, middle='swap'), need_outcomes=['done:' + sw[0]]))
+        J.append(Job('memo_seq', dict(N=2, L=2, K=3, ops=sw, middle='swap'), need_outcomes=['done:' + sw[0]]))
     if pid in SEQ:
         J.append(Job('memo_seq', dict(N=2, L=2, K=3, ops=SEQ[pid]), need_outcomes=['done:' + SEQ[pid][0]]))
         # results that are *new* nodes (freed by the collection in between) need a second operand node
@@ -207,9 +207,9 @@ def jobs(pid, tier):
         # the same call made first with the other quantifier kind (nothing remembered between calls may leak)
         J.append(Job('image', dict(N=3, L=2, styles=['names'], warm=True), need_outcomes=['returned:preimage', 'returned:image']))
         J.append(Job('image', dict(N=4, L=4, which=['preimage'], minpairs=2, maxpairs=2, styles=['levels'],
-                               qsets='values', foralls=[0], forward_only=q),
+                               qsets='values', foralls=[0], forward_only=True),
                      need_outcomes=['returned:preimage']))
-        J.append(Job('image', dict(N=3 if q else 4, L=4, which=['image_nonadjacent'], minpairs=2, maxpairs=2,
+        J.append(Job('image', dict(N=3, L=4, which=['image_nonadjacent'], minpairs=2, maxpairs=2,
                                styles=['levels'], qsets='values', foralls=[0]),
                      need_outcomes=['returned:image_nonadjacent']))
         if not q:
@@ -225,18 +225,17 @@ def jobs(pid, tier):
     if pid == 'C15':
         J.append(Job('mdd_ops', dict(K=2 if q else 3, ops=['lemma', 'find_or_add', 'gc']),
                      need_outcomes=['done:lemma', 'done:find_or_add', 'done:gc']))
-        J.append(Job('mdd_ops', dict(K=2, ops=['ite'], arities=[[2, 2]] if q else [[2, 2], [3, 2], [2, 3]]),
+        J.append(Job('mdd_ops', dict(K=2, ops=['ite'], arities=[[2, 2]] if q else [[2, 2], [3, 2]]),
                      need_outcomes=['done:ite']))
-        J.append(Job('mdd_ops', dict(K=1 if q else 2, ops=['apply'], arities=[[2, 2], [3, 2]]),
+        J.append(Job('mdd_ops', dict(K=1, ops=['apply'], arities=[[2, 2], [3, 2]] if q else [[2, 2], [3, 2], [2, 3]]),
                      need_outcomes=['done:apply']))
         J.append(Job('mdd_conv', dict(N=3, L=2, K=2), need_outcomes=['converted']))
         J.append(Job('mdd_conv', dict(N=2, L=3, K=2), need_outcomes=['converted']))
         if not q:
             J.append(Job('mdd_conv', dict(N=3, L=3, K=2), need_outcomes=['converted']))
-            J.append(Job('mdd_conv', dict(N=4, L=2, K=3), need_outcomes=['converted']))
     if pid == 'C16':
         J.append(Job('dddmp', dict(M=2, nroots=1), need_outcomes=['loaded']))
-        J.append(Job('dddmp', dict(M=3 if q else 4, nroots=2, headers=['v0gap', 'v3'] if q else ['v0', 'v0gap', 'v1', 'v3']),
+        J.append(Job('dddmp', dict(M=3, nroots=2, headers=['v0gap', 'v3'] if q else ['v0', 'v0gap', 'v1', 'v3']),
                      need_outcomes=['loaded']))
     if pid == 'C17':
         J.append(Job('reject', dict(N=3, L=2, fires=1), need_outcomes=['rejected:apply_unknown_op', 'rejected:expr_syntax', 'rejected:var_undeclared']))
@@ -254,8 +253,7 @@ def jobs(pid, tier):
         J.append(Job('k9_undeclare', dict(N=4, L=3), need_outcomes=['removed', 'refused']))
         J.append(Job('k7_swap', dict(N=4, L=2, x=0, K=2, handle=True), need_outcomes=['swapped']))
         if not q:
-            J.append(Job('views', dict(N=4, L=3), need_outcomes=['viewed:expand_function', 'viewed:to_dot']))
-            J.append(Job('views', dict(N=5, L=2), need_outcomes=['viewed:expand_function', 'viewed:to_dot']))
+            J.append(Job('views', dict(N=4, L=3, kinds=['to_nx']), need_outcomes=['viewed:to_nx']))
     if pid == 'C19':
         for w in ('cudd', 'cudd_zdd', 'sylvan', 'buddy'):
             J.append(Job('pyx', dict(which=w), need_outcomes=['compared'], procs=4))
